@@ -34,7 +34,9 @@ import (
 type Spec struct {
 	Idx        int    `json:"idx"`
 	Seed       int64  `json:"seed"`
-	DurMs      int    `json:"dur_ms"`
+	DurMs      int    `json:"min_ms"` // the operation goroutines run at least this long ...
+	Ops        int    `json:"ops"`    // ... and until this many calls have completed ...
+	CapMs      int    `json:"cap_ms"` // ... but never longer than this (generous wall-clock cap)
 	NDB        int    `json:"ndb"`
 	Writers    int    `json:"writers"`
 	G          int    `json:"g"`
@@ -99,6 +101,13 @@ type ProbeResult struct {
 	Cause string   `json:"cause,omitempty"`
 }
 
+type ObjState struct {
+	DB     string `json:"db"`
+	N      int    `json:"n"`      // n-th object created for this path
+	Open   bool   `json:"open"`   // IsOpen(): monitors running
+	Handle bool   `json:"handle"` // closed but holds a SQLite handle (re-initialised)
+}
+
 type StuckInfo struct {
 	Op        string `json:"op"`
 	DB        string `json:"db"`
@@ -117,6 +126,10 @@ type Final struct {
 	Completed int64            `json:"completed"`
 	Proxy     map[string]int64 `json:"proxy"`
 	FinalList map[string]int   `json:"final_list"`
+	Reopened  []ObjState       `json:"reopened,omitempty"` // DB objects that are open / hold a SQLite handle after every Close returned
+	Objects   int              `json:"objects"`
+	RunMs     int64            `json:"run_ms"`   // how long the operation goroutines ran
+	RunCalls  int64            `json:"run_calls"` // calls completed when they were told to stop
 	WallMs    int64            `json:"wall_ms"`
 	SlowOps   int              `json:"slow_ops"`
 }
@@ -149,6 +162,24 @@ type mainDB struct {
 type sideDB struct {
 	name, path, rep string
 	mu              sync.Mutex // probe paths: one probe sequence at a time
+}
+
+type objRec struct {
+	name string
+	n    int
+	db   *litestream.DB
+}
+
+func (c *child) track(name string, db *litestream.DB) {
+	c.objMu.Lock()
+	n := 1
+	for _, o := range c.objs {
+		if o.name == name {
+			n++
+		}
+	}
+	c.objs = append(c.objs, objRec{name, n, db})
+	c.objMu.Unlock()
 }
 
 type inflight struct {
@@ -192,6 +223,9 @@ type child struct {
 
 	prMu   sync.Mutex
 	probes []ProbeResult
+
+	objMu sync.Mutex
+	objs  []objRec
 
 	stuckMu sync.Mutex
 	stuck   []StuckInfo
@@ -504,6 +538,7 @@ func (c *child) mkMain(m *mainDB) *litestream.DB {
 	m.hmu.Lock()
 	m.objs = append(m.objs, db)
 	m.hmu.Unlock()
+	c.track(m.name, db)
 	return db
 }
 
@@ -521,6 +556,7 @@ func (c *child) mkSide(p *sideDB) *litestream.DB {
 	db.Replica = litestream.NewReplicaWithClient(db, px)
 	db.Replica.SyncInterval = time.Duration(s.SyncMs) * time.Millisecond
 	fc.Replica = db.Replica
+	c.track(p.name, db)
 	return db
 }
 
@@ -799,7 +835,14 @@ func lockProbe(path string) string {
 
 func (c *child) probe(name, path, when string) ProbeResult {
 	pr := ProbeResult{DB: name, When: when, AtMs: time.Since(c.start).Milliseconds()}
-	pr.FDs = fdProbe(path)
+	// descriptors of a connection whose context was cancelled are closed by
+	// database/sql asynchronously: poll briefly, only a persisting descriptor counts
+	for i := 0; i < 40; i++ {
+		if pr.FDs = fdProbe(path); len(pr.FDs) == 0 {
+			break
+		}
+		time.Sleep(100 * time.Millisecond)
+	}
 	pr.Lock = lockProbe(path)
 	c.prMu.Lock()
 	c.probes = append(c.probes, pr)
@@ -865,7 +908,16 @@ func (c *child) run(fin *Final) {
 			}
 		}(i)
 	}
-	time.Sleep(time.Duration(s.DurMs) * time.Millisecond)
+	runStart := time.Now()
+	for {
+		time.Sleep(50 * time.Millisecond)
+		el := time.Since(runStart)
+		if (el >= time.Duration(s.DurMs)*time.Millisecond && c.completed.Load() >= int64(s.Ops)) || el >= time.Duration(s.CapMs)*time.Millisecond {
+			break
+		}
+	}
+	fin.RunMs = time.Since(runStart).Milliseconds()
+	fin.RunCalls = c.completed.Load()
 	c.stop.Store(true)
 	owg.Wait() // a call that never returns is caught by the watchdog
 	c.stopWriters.Store(true)
@@ -921,6 +973,21 @@ func (c *child) run(fin *Final) {
 		fl[c.names[d.Path()]]++
 	}
 	fin.FinalList = fl
+	// every DB object ever created must be closed now: registered ones by
+	// Store.Close, the others by UnregisterDB / RegisterDB (losers)
+	c.objMu.Lock()
+	fin.Objects = len(c.objs)
+	for _, o := range c.objs {
+		st := ObjState{DB: o.name, N: o.n, Open: o.db.IsOpen()}
+		if !st.Open {
+			// closed: no monitor goroutine, every call has returned => plain read is ordered
+			st.Handle = o.db.SQLDB() != nil
+		}
+		if st.Open || st.Handle {
+			fin.Reopened = append(fin.Reopened, st)
+		}
+	}
+	c.objMu.Unlock()
 	for i, m := range c.mains {
 		mf := &finals[i]
 		mf.AckClose = cerr == nil
